@@ -4,7 +4,7 @@
 usage: design.d/selftest/task_selftest.py [name-prefix ...]      (default: everything)
 
 For every edit below (and every reverse-applied repair) a scratch copy of the
-private repaired tree /tmp/w-taskgo is made at /tmp/w-taskgo-m, the edit is
+repository /repo (task repairs integrated) is made at /tmp/w-taskgo-m, the edit is
 applied (the old text must occur exactly once), the 38 baseline tests are run
 on the copy, `VERIF_REPO=/tmp/w-taskgo-m bin/check <ID> --tier quick` is run,
 the verdict line and the failing input named by the replay file are printed,
@@ -12,8 +12,8 @@ and the copy is deleted.  Results: design.d/task-harness.md section 9.
 """
 import sys, os, shutil, subprocess, json, re
 
-SRC = os.environ.get("TASK_TREE", "/tmp/w-taskgo")
-DST = SRC + "-m"
+SRC = os.environ.get("TASK_TREE", "/repo")
+DST = "/tmp/w-taskgo-m"
 M = {
  # ---- C01
  "c01-load-from-local":      ("C01", "shovel/task.go", "task.load(ctx, url, localHash, localNum+1, delta)", "task.load(ctx, url, localHash, localNum, delta)"),
@@ -54,7 +54,12 @@ M = {
  "c06-start-not-minus1":     ("C06", "shovel/task.go", "\t\t\tn := t.start - 1\n", "\t\t\tn := t.start\n"),
  "c06-head-not-minus1":      ("C06", "shovel/task.go", "h, err := t.src.Hash(ctx, t.src.NextURL().String(), n-1)\n\t\t\tif err != nil {\n\t\t\t\treturn 0, nil, fmt.Errorf(\"getting hash for %d: %w\", n-1, err)\n\t\t\t}\n\t\t\tslog.InfoContext(t.ctx, \"start at latest\", \"num\", n)\n\t\t\treturn n - 1, h, nil", "h, err := t.src.Hash(ctx, t.src.NextURL().String(), n)\n\t\t\tif err != nil {\n\t\t\t\treturn 0, nil, fmt.Errorf(\"getting hash for %d: %w\", n, err)\n\t\t\t}\n\t\t\tslog.InfoContext(t.ctx, \"start at latest\", \"num\", n)\n\t\t\treturn n, h, nil"),
  "c06-position-ignored":     ("C06", "shovel/task.go", "\tdefault:\n\t\treturn localNum, localHash, nil\n\t}\n}\n\nvar (\n\tErrNothingNew", "\tdefault:\n\t\tif t.start > 0 && localNum < t.start+2 {\n\t\t\treturn t.start - 1, localHash, nil\n\t\t}\n\t\treturn localNum, localHash, nil\n\t}\n}\n\nvar (\n\tErrNothingNew"),
+ # ---- seeded by the coordinator (caught only by trace conformance before the drivers were strengthened)
+ "seed-c03-delete-clamped-to-current-batch": ("C03", "shovel/task.go", ['\tdefault:\n\t\tn = prev + 1\n\t}\n\terr = t.dests[0].Delete(t.ctx, pg, n)', 'func (t *Task) Delete(pg wpg.Conn, n uint64) error {\n\tconst q = `'], ['\tdefault:\n\t\tn = prev + 1\n\t}\n\tif b := uint64(t.batchSize); pos >= b && n < pos-b+1 {\n\t\tn = pos - b + 1\n\t}\n\terr = t.dests[0].Delete(t.ctx, pg, n)', 'func (t *Task) Delete(pg wpg.Conn, n uint64) error {\n\tpos := n\n\tconst q = `']),
+ "seed-c02-delete-clamped-to-current-batch": ("C02", "shovel/task.go", ['\tdefault:\n\t\tn = prev + 1\n\t}\n\terr = t.dests[0].Delete(t.ctx, pg, n)', 'func (t *Task) Delete(pg wpg.Conn, n uint64) error {\n\tconst q = `'], ['\tdefault:\n\t\tn = prev + 1\n\t}\n\tif b := uint64(t.batchSize); pos >= b && n < pos-b+1 {\n\t\tn = pos - b + 1\n\t}\n\terr = t.dests[0].Delete(t.ctx, pg, n)', 'func (t *Task) Delete(pg wpg.Conn, n uint64) error {\n\tpos := n\n\tconst q = `']),
+ "seed-c05-dependency-read-hoisted": ("C05", "shovel/task.go", ['\tfor reorgs := 0; reorgs <= 1000; reorgs++ {\n\t\tlocalNum, localHash, err := task.latest(ctx, pgtx)', '\t\t\tdepNum, depHash, err := task.latestDependency(pgtx)\n\t\t\tif err != nil {\n\t\t\t\treturn fmt.Errorf("getting latest from dependencies: %w", err)\n\t\t\t}\n\t\t\tswitch {'], ['\tvar (\n\t\tdepNum  uint64\n\t\tdepHash []byte\n\t)\n\tif len(task.destConfig.Dependencies) > 0 {\n\t\tdepNum, depHash, err = task.latestDependency(pgtx)\n\t\tif err != nil {\n\t\t\treturn fmt.Errorf("getting latest from dependencies: %w", err)\n\t\t}\n\t}\n\tfor reorgs := 0; reorgs <= 1000; reorgs++ {\n\t\tlocalNum, localHash, err := task.latest(ctx, pgtx)', '\t\t\tswitch {']),
 }
+
 REV = {
  "rev-C01-fix":  ("C01", "C01-load-partition-size"),
  "rev-C03a-fix-on-C02": ("C02", "C03-unwind-whole-batch"),
@@ -83,11 +88,14 @@ def run(name):
                 return
         else:
             prop, path, old, new = M[name]
+            olds, news = (old, new) if isinstance(old, list) else ([old], [new])
             src = open(os.path.join(DST, path)).read()
-            if src.count(old) != 1:
-                print(f"{name}: PATTERN matches {src.count(old)} times")
-                return
-            open(os.path.join(DST, path), "w").write(src.replace(old, new))
+            for o, n in zip(olds, news):
+                if src.count(o) != 1:
+                    print(f"{name}: PATTERN matches {src.count(o)} times")
+                    return
+                src = src.replace(o, n)
+            open(os.path.join(DST, path), "w").write(src)
         rc, out = sh("go build ./shovel/ ./dig/ ./jrpc2/", cwd=DST)
         if rc != 0:
             print(f"{name}: DOES NOT COMPILE\n{out[:800]}")
